@@ -1,6 +1,8 @@
 """Seeded swarm generator: one integer -> one complete run record (knobs, operations, faults,
 crash point, clock events).  Everything is drawn from a PRNG derived from the seed; nothing else.
 """
+import json
+import os
 import random
 
 from sim.world import mix
@@ -30,6 +32,9 @@ def wchoice(rng, pairs):
         if x < 0:
             return v
     return pairs[-1][1]
+
+
+HASH_TWINS = json.load(open(os.path.join(os.path.dirname(os.path.abspath(__file__)), "hash_twins.json")))
 
 
 def gen_knobs(rng, prop, profile):
@@ -94,6 +99,15 @@ def gen_knobs(rng, prop, profile):
                 if (kd["scheme"], new, kd["comment"]) not in {(x["scheme"], x["res"], x["comment"]) for x in keys}:
                     res_sizes.setdefault(new, res_sizes[kd["res"]])
                     kd["res"] = new
+    if len(keys) >= 2 and rng.random() < 0.08:
+        # two uris that collide under an ABBREVIATED or weak hash of the uri (first/last 10 hex digits of md5,
+        # first 10 of sha1/sha256, adler32): found offline by tools/find_hash_twins.py
+        a, b = HASH_TWINS[rng.choice(sorted(HASH_TWINS))]
+        taken = {(x["scheme"], x["res"], x["comment"]) for x in keys[2:]}
+        if ("sim", a, "") not in taken and ("sim", b, "") not in taken:
+            for i, name in ((0, a), (1, b)):
+                res_sizes[name] = rng.choice([100, 300, 1000])
+                keys[i] = dict(keys[i], scheme="sim", res=name, comment="")
     if c19 and len(keys) >= 3 and rng.random() < 0.06:
         keys[-1] = dict(keys[-1], scheme="nosuch")  # a uri whose scheme no resource handles
     sizes = sorted(res_sizes[k["res"]] + (4 if k["pp"] else 0) for k in keys)
